@@ -179,6 +179,9 @@ func (c *Cluster) hJoinGroup(b *Broker, r *Request, act *Action) map[string]any 
 		return fail(int64(act.ErrorCode))
 	}
 	gid := str(r.Body, "GroupID")
+	if len(arr(r.Body, "Protocols")) == 0 {
+		return fail(23) // INCONSISTENT_GROUP_PROTOCOL: a member has to offer at least one protocol
+	}
 	c.mu.Lock()
 	if c.coordinatorLocked(gid) != b.ID {
 		c.mu.Unlock()
